@@ -162,6 +162,12 @@ func ruleLock(c *engine.Context) *report.Rule {
 					nUnlock++
 					unlockFns = append(unlockFns, fn)
 				}
+				if d, isDefer := ins.(*ssa.Defer); isDefer {
+					if sc := d.Call.StaticCallee(); sc != nil && sc.Name() == "Unlock" && len(d.Call.Args) > 0 && d.Call.Args[0] == ssa.Value(p.Roles.Mutex) {
+						nUnlock++
+						unlockFns = append(unlockFns, fn)
+					}
+				}
 			}
 		}
 	}
@@ -178,8 +184,13 @@ func ruleLock(c *engine.Context) *report.Rule {
 	// (a2) the defer with Unlock comes right after Lock
 	var theDefer *ssa.Defer
 	var deferFn *ssa.Function
+	directUnlock := false
 	for _, d := range deferredClosures(parse) {
-		if f := closureFn(d.Call.Value); f != nil {
+		if sc := d.Call.StaticCallee(); sc != nil && sc.Name() == "Unlock" && len(d.Call.Args) > 0 && d.Call.Args[0] == ssa.Value(p.Roles.Mutex) {
+			theDefer, directUnlock = d, true
+			continue
+		}
+		if f := closureFn(d.Call.Value); f != nil && f.Blocks != nil {
 			for _, b := range f.Blocks {
 				for _, ins := range b.Instrs {
 					if mutexCall(p, ins, "Unlock") {
@@ -199,7 +210,7 @@ func ruleLock(c *engine.Context) *report.Rule {
 	if okOrder {
 		for _, ins := range lock.Block().Instrs[instrIndex(lock)+1 : instrIndex(theDefer)] {
 			switch ins.(type) {
-			case *ssa.MakeClosure, *ssa.Alloc:
+			case *ssa.MakeClosure, *ssa.Alloc, *ssa.Defer:
 			default:
 				okOrder = false
 				r.Violation("instruction between Lock and the deferred Unlock registration in Parse", p.RelPos(ins.Pos()),
@@ -210,9 +221,9 @@ func ruleLock(c *engine.Context) *report.Rule {
 		r.Violation("deferred Unlock is not registered directly after Lock in Parse", p.RelPos(theDefer.Pos()), "the defer containing Unlock must follow Lock in the entry block")
 	}
 	r.Oblige(okOrder)
-	// Unlock only inside that closure
+	// Unlock only inside that closure (a directly deferred Unlock is an instruction of Parse itself)
 	for _, f := range unlockFns {
-		if f != deferFn {
+		if f != deferFn && !(directUnlock && f == parse) {
 			r.Violation("Unlock of the parser mutex outside Parse's deferred closure in "+load.FuncName(f), p.RelPos(f.Pos()), "the parser mutex is unlocked in %s", load.FuncName(f))
 		}
 	}
@@ -245,7 +256,11 @@ func ruleLock(c *engine.Context) *report.Rule {
 		}
 	}
 	// (a4) in the deferred closure: Unlock dominates every return; nothing that can panic precedes it
+	// (a directly deferred Unlock runs in any case, also when another deferred function panics)
 	var unlock ssa.Instruction
+	if directUnlock {
+		deferFn = &ssa.Function{}
+	}
 	for _, b := range deferFn.Blocks {
 		for _, ins := range b.Instrs {
 			if mutexCall(p, ins, "Unlock") {
@@ -449,9 +464,11 @@ func ruleReset(c *engine.Context) *report.Rule {
 	}
 	// fields written by PARSE functions (anything but the reset closure chain and init)
 	var theDeferFn *ssa.Function
+	var deferFns []*ssa.Function
 	for _, d := range deferredClosures(parse) {
-		if f := closureFn(d.Call.Value); f != nil {
+		if f := closureFn(d.Call.Value); f != nil && f.Blocks != nil {
 			theDeferFn = f
+			deferFns = append(deferFns, f)
 		}
 	}
 	if theDeferFn == nil {
@@ -509,7 +526,9 @@ func ruleReset(c *engine.Context) *report.Rule {
 			}
 		}
 	}
-	collect(theDeferFn, 0)
+	for _, f := range deferFns {
+		collect(f, 0)
+	}
 
 	written := map[int][]string{}
 	immutableSrc := map[int]bool{}
